@@ -47,13 +47,17 @@ def gen_device(rng, maxp):
             widths.append(w)
             total += w
         r = rng.random()
-        if r < 0.25:
+        if r < 0.2:
             period = -1
-        elif r < 0.35:
+        elif r < 0.27:
+            period = "omit"        # no period field at all: the writer's default (-1), never sent
+        elif r < 0.32:
+            period = 0             # due on every call with a new timestamp
+        elif r < 0.4:
             period = 1
         else:
             period = rng.randint(1, maxp)
-        msgs.append({"name": f"M{i}", "id": ids[i], "widths": widths, "period": period})
+        msgs.append({"name": f"M{i}", "id": ids[i], "widths": widths, "period": -1 if period == "omit" else period, "omit": period == "omit"})
     return msgs
 
 
@@ -64,7 +68,8 @@ def device_fcp(msgs):
         for k, w in enumerate(m["widths"]):
             out.append(f"    f{k} @{k}: u{w},")
         out.append("}")
-        out.append(f"impl can for {m['name']} {{\n    id: {m['id']},\n    device: \"ecu\",\n    period: {m['period']},\n}}\n")
+        pline = "" if m.get("omit") else f"    period: {m['period']},\n"
+        out.append(f"impl can for {m['name']} {{\n    id: {m['id']},\n    device: \"ecu\",\n{pline}}}\n")
     return "\n".join(out)
 
 
